@@ -412,6 +412,16 @@ def run(ctx, anchors=None):
     ctx.inst(done_ok, "R05.3", "signed-leaf-hash-is-derived-leaf-hash", stepper.loc(), "Done copies *tce->m_tapleaf_hash (the exported leaf hash) into execdata.m_tapleaf_hash",
              "the Done transition copies `%s` into the signing data; the leaf hash is *tce->m_tapleaf_hash (m_k has been folded with the path and is the Merkle root by then)" % src)
     ctx.inst(failed_ok, "R05.3", "failed-does-not-advance", stepper.loc(), "a failed commitment check fails the step without advancing")
+    # a failed commitment stays failed: the environment is not released on the Failed path (a later `step` would otherwise run
+    # the script as if the commitment had held) unless the session is finished there and then
+    released = []
+    for o in failed_o:
+        tce_v = [v for (k, v) in o.heap.items() if k[1] == "tce"]
+        done_v = [v for (k, v) in o.heap.items() if k[1] == "done"]
+        if tce_v and tce_v[-1] in (symx.NULL, symx.C(0)) and not (done_v and done_v[-1] == symx.C(1)):
+            released.append(o)
+    ctx.inst(not released, "R05.3", "failed-commitment-stays-failed", stepper.loc(), "on the Failed path the commitment environment is kept (every later step fails again)",
+             "on the Failed path the stepper releases the commitment environment (tce = nullptr) without finishing the session: the next `step` executes the script although the commitment check failed")
     # ---- R05.4
     ctt = fb.fn("XOnlyPubKey::CheckTapTweak")
     call = [n for n in ctt.nodes() if n["k"] == "call" and n.get("n") == "secp256k1_xonly_pubkey_tweak_add_check"]
@@ -441,6 +451,7 @@ def size_pred_is(n):
 
 
 MUTANTS = [
+    dict(name="failed-commitment-released", file="debugger/interpreter.cpp", find="        case TaprootCommitmentEnv::State::Failed:\n            return false;", replace="        case TaprootCommitmentEnv::State::Failed:\n            delete env.tce;\n            env.tce = nullptr;\n            return false;", expect=["R05.3:failed-commitment-stays-failed"]),
     dict(name="commitment-skipped-for-empty-script", file="instance.cpp", find="    env->done &= successor_script.size() == 0 && !tce;\n", replace="    env->done &= successor_script.size() == 0;\n", expect=["R05.5:pending-commitment-not-done"]),
     dict(name="step-swaps-branch-operands", file="debugger/interpreter.cpp", find="            ss_branch << m_k << node;", replace="            ss_branch << node << m_k;", expect=["R05.1:fold:then"]),
     dict(name="step-node-offset-off-by-one", file="debugger/interpreter.cpp", find="Span<const unsigned char> node(m_control.data() + TAPROOT_CONTROL_BASE_SIZE + TAPROOT_CONTROL_NODE_SIZE * m_i, TAPROOT_CONTROL_NODE_SIZE);",
